@@ -6,10 +6,11 @@ sys.path.insert(0, here)
 props = [json.loads(l) for l in open(os.path.join(here, "properties.jsonl"))]
 checks, na = [], []
 pending_reason = json.load(open(os.path.join(here, "not_applicable.json")))
+claimed = set(json.load(open(os.path.join(here, "claimed.json"))))
 for p in props:
     pid = p["id"]
     modpath = os.path.join(here, "checks", pid.lower() + ".py")
-    if os.path.exists(modpath):
+    if pid in claimed and os.path.exists(modpath):
         m = importlib.import_module("checks." + pid.lower())
         meta = getattr(m, "META", {})
         checks.append({
